@@ -67,6 +67,23 @@ func mkPair(a, b attrs) (D, D) {
 	return d1, d2
 }
 
+// seen returns the attributes as the descriptor and its signal report them through their getters: the relations
+// are stated over the field values of the two descriptors, and those are what the getters say (a setter may
+// legitimately have side effects on a neighbouring field; whether setters are reflected by getters is C09's
+// business).
+func seen(d D, a attrs) attrs {
+	a.Type, a.Event = byte(d.TypeID()), d.EventID()
+	a.SegNum, a.SegExp = d.SegmentNumber(), d.SegmentsExpected()
+	a.HasSub, a.SubNum, a.SubExp = d.HasSubSegments(), d.SubSegmentNumber(), d.SubSegmentsExpected()
+	if s := d.SCTE35(); s != nil {
+		a.HasPTS = s.HasPTS()
+		if a.HasPTS {
+			a.PTS = uint64(s.PTS())
+		}
+	}
+	return a
+}
+
 func bare(a attrs, r *gen.Rand) D {
 	d := scte35.CreateSegmentationDescriptor()
 	d.SetTypeID(scte35.SegDescType(a.Type))
@@ -188,6 +205,7 @@ func run(c *mon.Ctx) {
 				b.Type = q.PickByte([]byte{0x34, 0x36, 0x30, 0x10, 0x40, 0x3c, 0x44})
 			}
 			da, db := mk(a), mk(b)
+			a, b = seen(da, a), seen(db, b) // the field values as the descriptors report them
 			want := ref.CanClose(a.Type, b.Type, a.Event == b.Event, a.PTS == b.PTS, a.SegNum == a.SegExp)
 			if got := da.CanClose(db); got != want {
 				return fmt.Sprintf("type %#02x CanClose type %#02x (event equal=%v, PTS equal=%v, segment_num==expected=%v) = %v, the table says %v", a.Type, b.Type, a.Event == b.Event, a.PTS == b.PTS, a.SegNum == a.SegExp, got, want)
@@ -238,30 +256,49 @@ func run(c *mon.Ctx) {
 					if !evEq && !ptsEq && r.Chance(3) {
 						b.Event, b.PTS = 6, P+1<<32 // differs in both, by the amounts a packed comparison would confuse
 					}
-					od := mk(b)
-					for _, ic := range incs {
-						// "whether their signals' PTS values are equal" is what the two signals report through
-						// PTS(); for carriers whose command has no time that need not be the value handed to
-						// SetAdjustPTS (the first version of this check assumed it was; DESIGN section 7)
-						ptsEqSeen := ic.d.SCTE35().PTS() == od.SCTE35().PTS()
-						if ptsEqSeen != ptsEq {
-							c.Count("canclose.pts_equality_read_back_differs_from_values_set")
-							if ic.a.Carrier < 3 && b.Carrier < 3 {
-								c.Fail("canclose:signal-pts-readback", fmt.Sprintf("two signals whose commands carry a time were given the times %d and %d, but PTS() reports %d and %d", ic.a.PTS, b.PTS, ic.d.SCTE35().PTS(), od.SCTE35().PTS()), wit{A: ic.a, B: b, Detail: "SCTE35().PTS()"})
-							}
-						}
-						want := ref.CanClose(byte(in), byte(out), evEq, ptsEqSeen, ic.numEq)
-						got := ic.d.CanClose(od)
-						c.Eval(1)
-						if got != want {
-							rule := "no rule"
-							if k, ok := ref.CloseRules[byte(in)][byte(out)]; ok {
-								rule = "rule kind " + string(rune(k))
-							}
-							c.Fail(fmt.Sprintf("canclose:%02x>%02x", in, out), fmt.Sprintf("incoming type %#02x CanClose open type %#02x (event ids equal=%v, PTS equal=%v, segment_num==segments_expected=%v, sub-segment variant %d) = %v; the documented table (%s) says %v",
-								in, out, evEq, ptsEqSeen, ic.numEq, ic.subVar, got, rule, want), wit{A: ic.a, B: b, Detail: "a.CanClose(b)"})
+					ods := []D{mk(b)}
+					obs := []attrs{b}
+					if _, ok := ref.CloseRules[byte(in)][byte(out)]; ok {
+						// where the table has a rule, the open descriptor also comes with segment numbers that
+						// coincide with the incoming descriptor's (no rule looks at the open descriptor's numbers)
+						for _, ne := range [][2]byte{{3, 3}, {2, 2}, {1, 2}, {5, 5}, {4, 3}, {255, 255}, {0, 0}, {2, 5}} {
+							v := b
+							v.SegNum, v.SegExp, v.Noise = ne[0], ne[1], r.Uint32()|1
+							ods, obs = append(ods, mk(v)), append(obs, v)
 						}
 					}
+					for oi, od := range ods {
+						b := obs[oi]
+						for _, ic := range incs {
+							// "whether their signals' PTS values are equal" is what the two signals report through
+							// PTS(); for carriers whose command has no time that need not be the value handed to
+							// SetAdjustPTS (the first version of this check assumed it was; DESIGN section 7)
+							ptsEqSeen := ic.d.SCTE35().PTS() == od.SCTE35().PTS()
+							if ptsEqSeen != ptsEq {
+								c.Count("canclose.pts_equality_read_back_differs_from_values_set")
+								if ic.a.Carrier < 3 && b.Carrier < 3 {
+									c.Fail("canclose:signal-pts-readback", fmt.Sprintf("two signals whose commands carry a time were given the times %d and %d, but PTS() reports %d and %d", ic.a.PTS, b.PTS, ic.d.SCTE35().PTS(), od.SCTE35().PTS()), wit{A: ic.a, B: b, Detail: "SCTE35().PTS()"})
+								}
+							}
+							// the table is asked with the field values the two descriptors report
+							sa, sb := seen(ic.d, ic.a), seen(od, b)
+							if sa.Type != byte(in) || sb.Type != byte(out) || (sa.Event == sb.Event) != evEq || (sa.SegNum == sa.SegExp) != ic.numEq {
+								c.Count("canclose.fields_read_back_differ_from_values_set")
+							}
+							want := ref.CanClose(sa.Type, sb.Type, sa.Event == sb.Event, ptsEqSeen, sa.SegNum == sa.SegExp)
+							got := ic.d.CanClose(od)
+							c.Eval(1)
+							if got != want {
+								rule := "no rule"
+								if k, ok := ref.CloseRules[sa.Type][sb.Type]; ok {
+									rule = "rule kind " + string(rune(k))
+								}
+								c.Fail(fmt.Sprintf("canclose:%02x>%02x", sa.Type, sb.Type), fmt.Sprintf("incoming type %#02x CanClose open type %#02x (event ids equal=%v, PTS equal=%v, segment_num==segments_expected=%v, sub-segment variant %d) = %v; the documented table (%s) says %v",
+									sa.Type, sb.Type, sa.Event == sb.Event, ptsEqSeen, sa.SegNum == sa.SegExp, ic.subVar, got, rule, want), wit{A: sa, B: sb, Detail: "a.CanClose(b)"})
+							}
+						}
+					}
+					od := ods[0]
 					if _, ok := ref.CloseRules[byte(in)][byte(out)]; ok {
 						if c.Class(fmt.Sprintf("%02x>%02x/ev=%v/pts=%v", in, out, evEq, ptsEq)) && c.WantSample() && in == 0x35 {
 							c.Sample(func() interface{} {
@@ -281,8 +318,9 @@ func run(c *mon.Ctx) {
 				d, a = incs[k].d, incs[k].a
 			}
 			c.Eval(1)
-			if d.IsIn() != ref.IsSegIn(byte(in)) || d.IsOut() != ref.IsSegOut(byte(in)) || (d.IsIn() && d.IsOut()) {
-				c.Fail(fmt.Sprintf("inout:%02x", in), fmt.Sprintf("type %#02x (carrier kind %d): IsIn=%v IsOut=%v; documented lists say in=%v out=%v", in, a.Carrier, d.IsIn(), d.IsOut(), ref.IsSegIn(byte(in)), ref.IsSegOut(byte(in))), wit{A: a, Detail: "IsIn/IsOut"})
+			t := byte(d.TypeID()) // the type the descriptor reports (the one set, unless a setter had a side effect on it)
+			if d.IsIn() != ref.IsSegIn(t) || d.IsOut() != ref.IsSegOut(t) || (d.IsIn() && d.IsOut()) {
+				c.Fail(fmt.Sprintf("inout:%02x", t), fmt.Sprintf("type %#02x (carrier kind %d): IsIn=%v IsOut=%v; documented lists say in=%v out=%v", t, a.Carrier, d.IsIn(), d.IsOut(), ref.IsSegIn(t), ref.IsSegOut(t)), wit{A: a, Detail: "IsIn/IsOut"})
 				break
 			}
 		}
@@ -348,6 +386,12 @@ func run(c *mon.Ctx) {
 			ds = append(ds, mk(a))
 		}
 		n := len(as)
+		for k := range as {
+			if sk := seen(ds[k], as[k]); sk != as[k] {
+				c.Count("equal.fields_read_back_differ_from_values_set")
+				as[k] = sk
+			}
+		}
 		eq := make([][]bool, n)
 		defEq := func(x, y attrs) bool {
 			if !(x.HasPTS && y.HasPTS) || x.Type != y.Type || x.PTS != y.PTS || x.Event != y.Event || x.SegNum != y.SegNum || x.SegExp != y.SegExp || x.HasSub != y.HasSub {
@@ -401,13 +445,14 @@ func run(c *mon.Ctx) {
 		b := attrs{Type: r.PickByte([]byte{0x34, 0x36, 0x30, 0x10, 0x40, 0x3c, 0x44}), Event: uint32(1 + r.Intn(2)), PTS: uint64(1000 + 1000*r.Intn(2)), HasPTS: true, SegNum: 1, SegExp: 1, Noise: r.Uint32() | 1, Carrier: r.Intn(3)}
 		da, db := mk(a), mk(b)
 		check := func(when string) bool {
+			a, b := seen(da, a), seen(db, b) // the current field values are the ones the getters report
 			want := ref.CanClose(a.Type, b.Type, a.Event == b.Event, a.PTS == b.PTS, a.SegNum == a.SegExp)
 			c.Eval(2)
 			if got := da.CanClose(db); got != want {
 				c.Fail("canclose:after-setters", fmt.Sprintf("%s: a.CanClose(b)=%v, the documented table says %v for the current field values", when, got, want), wit{A: a, B: b, Detail: when})
 				return false
 			}
-			sameAttrs := a.Type == b.Type && a.PTS == b.PTS && a.Event == b.Event && a.SegNum == b.SegNum && a.SegExp == b.SegExp
+			sameAttrs := a.HasPTS && b.HasPTS && a.Type == b.Type && a.PTS == b.PTS && a.Event == b.Event && a.SegNum == b.SegNum && a.SegExp == b.SegExp && a.HasSub == b.HasSub && (!a.HasSub || a.SubNum == b.SubNum && a.SubExp == b.SubExp)
 			if got := da.Equal(db); got != sameAttrs {
 				c.Fail("equal:after-setters", fmt.Sprintf("%s: a.Equal(b)=%v, by the definition it is %v for the current field values", when, got, sameAttrs), wit{A: a, B: b, Detail: when})
 				return false
@@ -459,6 +504,7 @@ func run(c *mon.Ctx) {
 		da, db, twinA, twinB := mk(a), mk(b), mk(a), mk(b)
 		check := func(when string) bool {
 			c.Eval(6)
+			a, b := seen(da, a), seen(db, b)
 			want := ref.CanClose(a.Type, b.Type, a.Event == b.Event, a.PTS == b.PTS, a.SegNum == a.SegExp)
 			back := ref.CanClose(b.Type, a.Type, a.Event == b.Event, a.PTS == b.PTS, b.SegNum == b.SegExp)
 			switch {
